@@ -408,10 +408,44 @@ def _fill_image(fn, defs, data, nodes, names_used):
         if kv is not None and kv >= 0:
             return "bad", f"padding is looked up through slot {kv} of the lookup array, which is the slot of source node {kv}: padding becomes that node's new index (or stays fill only when the node is not selected)"
         return "unknown", f"padding is looked up through slot `{norm(k)}` of `{norm(L)[:60]}`: not decided"
-    return "bad", "the node map does not send INT_FILL_VALUE to INT_FILL_VALUE: padding slots of short faces become a real node of the subset"
+    # a masked store that puts the fill value back, in this function or in a helper of the module the renumbering is delegated to:
+    #     is_fill = conn == INT_FILL_VALUE; ...; renumbered[is_fill] = INT_FILL_VALUE
+    scopes = [(fn, defs)]
+    P_, f_ = _FILL_CTX
+    if P_ is not None:
+        from ..loader import FuncInfo
+        for e in exprs:
+            for cl in ast.walk(e):
+                if isinstance(cl, ast.Call):
+                    t_ = P_.resolve_expr(f_.module, cl.func, f_)
+                    if isinstance(t_, FuncInfo) and t_.module is f_.module:
+                        scopes.append((t_.node, LocalDefs(t_.node)))
+    for node_, d_ in scopes:
+        for st_ in iter_stmts(node_.body):
+            if isinstance(st_, ast.Assign) and isinstance(st_.targets[0], ast.Subscript) and S.is_fill(st_.value):
+                m_ = st_.targets[0].slice
+                n_ = 0
+                while isinstance(m_, ast.Name) and n_ < 5:
+                    dd = d_.defs.get(m_.id, [])
+                    if len(dd) != 1:
+                        break
+                    m_ = dd[0][0]
+                    n_ += 1
+                ft = S.fill_test(m_)
+                if ft and ft[0] == "eq":
+                    return "ok", "masked store puts the fill value back"
+    # understood and wrong: a dict / vectorised lookup without an entry for the fill value, or a lookup array indexed with the raw table
+    uses_dict = any(isinstance(x, ast.Attribute) and x.attr in ("__getitem__", "get") for e in exprs for x in ast.walk(e)) or any(isinstance(x, (ast.DictComp, ast.Dict)) for e in exprs for x in ast.walk(e))
+    if uses_dict:
+        return "bad", "the node map (a dict lookup) has no entry that sends INT_FILL_VALUE to INT_FILL_VALUE: padding slots of short faces raise or become a real node of the subset"
+    return "unknown", "how the node renumbering treats INT_FILL_VALUE (padding) is not recognised: no dict entry, no np.where / masked store putting it back, no lookup array with a slot for it"
+
+
+_FILL_CTX = [None, None]
 
 
 def _remap(run, P, f, defs, isel):
+    _FILL_CTX[0], _FILL_CTX[1] = P, f
     fn = f.node
     loop = None
     for st in iter_stmts(fn.body):
